@@ -93,6 +93,9 @@ class Density:
         return float(v)
 
     def grad(self, q):
+        if self.spec.get("alias"):
+            # standard normal target written the natural way (`lambda q: q`): the gradient IS the argument object
+            return q
         g = self.A @ q + self.b + self.c * q**3
         for a, w, phi in self.ridges:
             g = g + a * _cos(w @ q + phi) * w
@@ -584,7 +587,10 @@ def vec(n, lo=-1.0, hi=1.0):
 
 @st.composite
 def density_spec(draw, n, walls=False, max_ridges=2):
-    kind = draw(st.sampled_from(["full", "full", "full", "isotropic", "diagonal", "flat"]))
+    kind = draw(st.sampled_from(["full", "full", "full", "isotropic", "diagonal", "flat", "full", "stdnormal-alias"]))
+    if kind == "stdnormal-alias":
+        # f(q) = q'q/2 whose gradient function returns the very array it was passed
+        return {"dim": n, "a0": 1.0, "b": [0.0] * n, "c": [0.0] * n, "B": None, "ridges": [], "alias": True}
     spec = {"dim": n, "a0": draw(unit(0.3, 2.0)), "b": draw(vec(n)), "c": draw(vec(n, 0.0, 0.5)),
             "B": None, "ridges": []}
     if kind == "full":
